@@ -555,9 +555,11 @@ def _cmp_by_cases(ctx, prog, cname, fn, other, opt):
     import copy as _copy
     a, b = 'float(self)', f'float({other})'
     want = {ast.Lt: {'lt'}, ast.LtE: {'lt', 'eq'}, ast.Gt: {'gt'}, ast.GtE: {'gt', 'eq'}, ast.Eq: {'eq'}, ast.NotEq: {'lt', 'gt', 'un'}}[opt]
-    for rel in ('lt', 'eq', 'gt', 'un'):
+    # the two operands can be one and the same object (`q == q`): then their values are equal -- or both NaN, hence unordered
+    for (rel, same) in (('lt', False), ('eq', False), ('gt', False), ('un', False), ('eq', True), ('un', True)):
         env = guard_env(cname, other, True, True)
         env[('ord', a, b)] = rel
+        env[('same', 'self', other)] = same
         if rel == 'un':
             env[('nan', a)] = True
         try:
@@ -578,6 +580,8 @@ def _cmp_by_cases(ctx, prog, cname, fn, other, opt):
             if got is None or got != (rel in want):
                 names = {'lt': 'float(self) < float(other)', 'eq': 'float(self) == float(other) (including two infinities of the same sign)',
                          'gt': 'float(self) > float(other)', 'un': 'a NaN operand'}
+                if same:
+                    names = {'eq': 'one and the same object on both sides', 'un': 'one and the same object with a NaN value on both sides'}
                 return False, (f'for {names[rel]} it returns `{unparse(o.value)}`, which is ' +
                                ('not decided by the operands (inf - inf is NaN)' if got is None else f'{got}') + f'; required {rel in want}')
     return True, ''
@@ -603,7 +607,7 @@ def r166(ctx, ut):
                 else:
                     ok = isinstance(e, ast.Compare) and len(e.ops) == 1 and isinstance(e.ops[0], opt) and _is_float_of(e.left, 'self') \
                         and _is_float_of(e.comparators[0], other)
-            elif meth in CMP_OP and r in (True, False, AMBIG):
+            elif meth in CMP_OP and r in (True, False):
                 # the comparison of two float() calls is undetermined for the evaluator: inspect the final return directly
                 rets = [n for n in walk_shallow(fn) if isinstance(n, ast.Return) and isinstance(n.value, ast.Compare)]
                 ok = any(len(e.value.ops) == 1 and isinstance(e.value.ops[0], opt) and _is_float_of(e.value.left, 'self')
